@@ -3,6 +3,7 @@
   Only property theorems, their negative witnesses and non-vacuity examples live here.
 -/
 import Goat.Timeout
+import Goat.ReqHeaders
 namespace Goat.Props.C08
 open Goat Goat.Timeout
 
@@ -85,6 +86,31 @@ theorem key_case_insensitive (k v : Bytes) (rest : List KV) (d : Nat)
     timeoutFromHeaders ({ key := k, value := v } :: rest) = some d := by
   simp [timeoutFromHeaders, List.findSome?, hk, hv]
 
+/-- … wherever the entry stands: headers before it that are not (parsable) timeout entries and
+    whatever follows it do not change what is read (the application's own metadata rides in the same
+    list; a proxy's interceptor may append to it) -/
+theorem timeout_position_independent (pre post : List KV) (k v : Bytes) (d : Nat)
+    (hpre : ∀ x ∈ pre, lower x.key ≠ timeoutKey ∨ parseTimeout x.value = none)
+    (hk : lower k = timeoutKey) (hv : parseTimeout v = some d) :
+    timeoutFromHeaders (pre ++ { key := k, value := v } :: post) = some d := by
+  unfold timeoutFromHeaders
+  induction pre with
+  | nil => simp [hk, hv]
+  | cons x xs ih =>
+    have hx := hpre x (by simp)
+    have hxs : ∀ y ∈ xs, lower y.key ≠ timeoutKey ∨ parseTimeout y.value = none :=
+      fun y hy => hpre y (by simp [hy])
+    rw [List.cons_append, List.findSome?_cons]
+    rcases hx with hx | hx
+    · simp only [if_neg hx]; exact ih hxs
+    · by_cases hkx : lower x.key = timeoutKey
+      · simp only [if_pos hkx, hx]; exact ih hxs
+      · simp only [if_neg hkx]; exact ih hxs
+
+example : timeoutFromHeaders
+    [{ key := [120], value := [49] }, { key := timeoutKey, value := [53, 83] }, { key := [121], value := [] }]
+    = some 5000000000 := by decide
+
 /-- without any grpc-timeout entry there is no deadline -/
 theorem no_header_no_deadline (hs : List KV) (h : ∀ x ∈ hs, lower x.key ≠ timeoutKey) :
     timeoutFromHeaders hs = none := by
@@ -124,6 +150,30 @@ theorem encode_then_parse (r : Int) (hr : r ≤ (maxInt64 : Int)) :
   simp only [this, ite_false]
   congr 1
   exact Nat.min_eq_left hms
+
+/-- End to end on the header list the client really writes (client.go headersFromContext: the
+    caller's metadata first, the timeout entry last): whatever metadata the caller attaches — short of
+    a grpc-timeout key of its own — the server reads the caller's remaining time, floored to
+    milliseconds and at least one. -/
+theorem request_headers_carry_deadline (md : Metadata.MD) (r : Int) (hr : r ≤ (maxInt64 : Int))
+    (hmd : ∀ p ∈ md, lower p.1 ≠ timeoutKey) :
+    timeoutFromHeaders (ReqHeaders.headersFromContext md (some r)) = some (encodeMillis r * 1000000) := by
+  unfold ReqHeaders.headersFromContext
+  apply timeout_position_independent
+  · intro x hx
+    obtain ⟨p, hp, hk⟩ := ReqHeaders.toKeyValue_keys md x hx
+    exact Or.inl (hk ▸ hmd p hp)
+  · exact ReqHeaders.lower_timeoutHdrKey
+  · exact encode_then_parse r hr
+
+/-- … and a caller without a deadline sends no timeout: the handler has none -/
+theorem request_headers_without_deadline (md : Metadata.MD) (hmd : ∀ p ∈ md, lower p.1 ≠ timeoutKey) :
+    timeoutFromHeaders (ReqHeaders.headersFromContext md none) = none := by
+  apply no_header_no_deadline
+  intro x hx
+  simp only [ReqHeaders.headersFromContext, List.append_nil] at hx
+  obtain ⟨p, hp, hk⟩ := ReqHeaders.toKeyValue_keys md x hx
+  exact hk ▸ hmd p hp
 
 /-- Deadline transport, over abstract instants (nanoseconds). `D` the caller's deadline, `tHdr` the
     instant headersFromContext reads the clock, `tCtx ≥ tHdr` the instant the server derives the
